@@ -149,7 +149,7 @@ def run_tlc(module, cfg, workers='auto', env=None, timeout=900, simulate=None, d
     here; callers decide what it means.
     """
     meta = tempfile.mkdtemp(prefix='tlcmeta_')
-    cmd = ['java', '-XX:+UseParallelGC', '-Xmx6g', '-Xss256m']
+    cmd = ['java', '-XX:+UseParallelGC', '-Xmx6g', '-Xss256m', '-Djava.io.tmpdir=%s' % meta]     # TLC's tlc-* scratch dirs go with meta
     if deque:
         cmd.append('-Dtlc2.tool.queue.IStateQueue=StateDeque')
     cmd += ['-cp', CP, 'tlc2.TLC', '-workers', str(workers), '-metadir', meta, '-noGenerateSpecTE',
